@@ -370,17 +370,19 @@ theorem combine_chans (chans : List (Chan String)) (op : List (Chan String) → 
       (match op chans with
        | some c => .chan c false
        | none => .fuel) := by
-  have h1 : (chans.map (fun c => LeftR.chan c false)).any (fun r => match r with | .fuel => true | _ => false) = false := by
-    rw [List.any_eq_false]; intro r hr; obtain ⟨c, _, rfl⟩ := List.mem_map.mp hr; simp
-  have h2 : (chans.map (fun c => LeftR.chan c false)).any (fun r => match r with | .setupErr => true | _ => false) = false := by
-    rw [List.any_eq_false]; intro r hr; obtain ⟨c, _, rfl⟩ := List.mem_map.mp hr; simp
-  have h3 : (chans.map (fun c => LeftR.chan c false)).any (fun r => match r with | .chan _ s => s | _ => false) = false := by
-    rw [List.any_eq_false]; intro r hr; obtain ⟨c, _, rfl⟩ := List.mem_map.mp hr; simp
-  have h4 : (chans.map (fun c => LeftR.chan c false)).filterMap (fun r => match r with | .chan c _ => some c | _ => none) = chans := by
-    induction chans with
+  have h1 : (chans.map (fun c => LeftR.chan c false)).any LeftR.isFuel = false := by
+    rw [List.any_eq_false]; intro r hr; obtain ⟨c, _, rfl⟩ := List.mem_map.mp hr; simp [LeftR.isFuel]
+  have h2 : (chans.map (fun c => LeftR.chan c false)).any LeftR.isSetupErr = false := by
+    rw [List.any_eq_false]; intro r hr; obtain ⟨c, _, rfl⟩ := List.mem_map.mp hr; simp [LeftR.isSetupErr]
+  have h3 : (chans.map (fun c => LeftR.chan c false)).any LeftR.sw = false := by
+    rw [List.any_eq_false]; intro r hr; obtain ⟨c, _, rfl⟩ := List.mem_map.mp hr; simp [LeftR.sw]
+  have h4 : ∀ l : List (Chan String), (l.map (fun c => LeftR.chan c false)).filterMap LeftR.chan? = l := by
+    intro l
+    induction l with
     | nil => rfl
-    | cons c rest ih => simp [ih]
-  simp only [LeftR.combine, h1, h2, h3, h4, Bool.false_eq_true, if_false]
+    | cons c rest ih => simp only [List.map_cons, List.filterMap_cons, LeftR.chan?, ih]
+  simp only [LeftR.combine, h1, h2, h3, h4 chans, Bool.false_eq_true, if_false]
+  cases op chans <;> rfl
 
 section main
 variable (w : World) (hi : w.ideal = false) (hcs : ConcreteSubject w) (hne : NoCondErr w) (hnd : NoDupKeys w)
@@ -463,9 +465,13 @@ theorem leftChan_good (thr : Nat) (typ : String) :
         exact h5
       · intro g hg
         rw [hitems, hhit g hg]
+        have hre : rewriteExpr w g rel rd.restrs .this = directExpr w g rel rd.restrs := by simp only [rewriteExpr]
+        rw [hre]
         exact (directExpr_iff w hi hcs hne hnd leafD I.negD leafD_tt not_leafD_ff g rel rd (by rw [hg]; exact hrd) hw1').symm
       · intro g hg
         rw [hitems, hhit g hg]
+        have hre : rewriteExpr w g rel rd.restrs .this = directExpr w g rel rd.restrs := by simp only [rewriteExpr]
+        rw [hre]
         exact (directExpr_iff w hi hcs hne hnd leafP I.negP leafP_tt not_leafP_ff g rel rd (by rw [hg]; exact hrd) hw1').symm
     | computed r' =>
       simp only [w1Rewrite, Bool.and_eq_true, decide_eq_true_eq] at hw1
@@ -478,18 +484,16 @@ theorem leftChan_good (thr : Nat) (typ : String) :
         refine ⟨c, by simp [leftChan, hrd', hcl], hg.clean, hg.sorted, hg.typed, ?_, ?_⟩
         · intro g hgt
           rw [hg.defn g hgt]
-          show _ ↔ HoldsD (sysOf w) I [] (.node false (g, r'))
-          rw [holds_node_iff]
-          have := lfp_iff_rule w leafD I.negD (g, r')
-          rw [ruleOf_eq w hcs.notUserset g r' hr' rd' (by rw [hgt]; exact hrd') (by rw [hgt]; exact hw1.1)] at this
-          exact this.symm
+          rw [show rewriteExpr w g rel rd.restrs (Rewrite.computed r') = Expr.node false (g, r') from by rw [rewriteExpr]]
+          have h1 := lfp_iff_rule w leafD I.negD (g, r')
+          rw [ruleOf_eq w hcs.notUserset g r' hr' rd' (by rw [hgt]; exact hrd') (by rw [hgt]; exact hw1.1)] at h1
+          exact (holds_node_iff.trans h1).symm
         · intro g hgt
           rw [hg.poss g hgt]
-          show _ ↔ HoldsP (sysOf w) I [] (.node false (g, r'))
-          rw [holds_node_iff]
-          have := lfp_iff_rule w leafP I.negP (g, r')
-          rw [ruleOf_eq w hcs.notUserset g r' hr' rd' (by rw [hgt]; exact hrd') (by rw [hgt]; exact hw1.1)] at this
-          exact this.symm
+          rw [show rewriteExpr w g rel rd.restrs (Rewrite.computed r') = Expr.node false (g, r') from by rw [rewriteExpr]]
+          have h1 := lfp_iff_rule w leafP I.negP (g, r')
+          rw [ruleOf_eq w hcs.notUserset g r' hr' rd' (by rw [hgt]; exact hrd') (by rw [hgt]; exact hw1.1)] at h1
+          exact (holds_node_iff.trans h1).symm
     | ttu ts cr =>
       simp only [w1Rewrite, Bool.and_eq_true, decide_eq_true_eq] at hw1
       obtain ⟨hcr, hw1⟩ := hw1
@@ -500,16 +504,18 @@ theorem leftChan_good (thr : Nat) (typ : String) :
         simp only [hrdts] at hw1
         have := List.all_eq_true.mp hw1 p hp
         simpa using this
-      refine ⟨[], by simp [leftChan], rfl, List.Pairwise.nil, fun x hx => by cases hx, ?_, ?_⟩
+      refine ⟨[], by simp [leftChan], rfl, List.Pairwise.nil, (fun x hx => by cases hx), ?_, ?_⟩
       · intro g hg
         constructor
         · intro h; cases h
         · intro h
+          rw [show rewriteExpr w g rel rd.restrs (Rewrite.ttu ts cr) = ttuExpr w g ts cr from by rw [rewriteExpr]] at h
           exact absurd h (ttuExpr_false w hi hcs hne leafD I.negD not_leafD_ff g ts cr hcr (hw1' g hg))
       · intro g hg
         constructor
         · intro h; cases h
         · intro h
+          rw [show rewriteExpr w g rel rd.restrs (Rewrite.ttu ts cr) = ttuExpr w g ts cr from by rw [rewriteExpr]] at h
           exact absurd h (ttuExpr_false w hi hcs hne leafP I.negP not_leafP_ff g ts cr hcr (hw1' g hg))
     | union cs =>
       have hall : cs.all (w1Rewrite w typ fuel rd.restrs) = true := by simpa [w1Rewrite] using hw1
@@ -524,8 +530,8 @@ theorem leftChan_good (thr : Nat) (typ : String) :
         exact hg.typed x hxc
       · intro g hg
         rw [hmem g]
-        show _ ↔ HoldsD (sysOf w) I [] (.or (cs.map (rewriteExpr w g rel rd.restrs)))
-        rw [holds_or_iff]
+        rw [show rewriteExpr w g rel rd.restrs (Rewrite.union cs) = Expr.or (cs.map (rewriteExpr w g rel rd.restrs)) from by rw [rewriteExpr]]
+        refine Iff.trans ?_ holds_or_iff.symm
         constructor
         · rintro ⟨c, hc', hgc⟩
           obtain ⟨rw1, hrw1, _, hgood⟩ := forall₂_mem_right hch hc'
@@ -536,8 +542,8 @@ theorem leftChan_good (thr : Nat) (typ : String) :
           exact ⟨c, hc', (hgood.defn g hg).mpr hhe⟩
       · intro g hg
         rw [hmem g]
-        show _ ↔ HoldsP (sysOf w) I [] (.or (cs.map (rewriteExpr w g rel rd.restrs)))
-        rw [holds_or_iff]
+        rw [show rewriteExpr w g rel rd.restrs (Rewrite.union cs) = Expr.or (cs.map (rewriteExpr w g rel rd.restrs)) from by rw [rewriteExpr]]
+        refine Iff.trans ?_ holds_or_iff.symm
         constructor
         · rintro ⟨c, hc', hgc⟩
           obtain ⟨rw1, hrw1, _, hgood⟩ := forall₂_mem_right hch hc'
@@ -563,8 +569,8 @@ theorem leftChan_good (thr : Nat) (typ : String) :
         exact hg.typed x ((hmem x).mp hx c0 hc0)
       · intro g hg
         rw [hmem g]
-        show _ ↔ HoldsD (sysOf w) I [] (.and (cs.map (rewriteExpr w g rel rd.restrs)))
-        rw [holds_and_iff]
+        rw [show rewriteExpr w g rel rd.restrs (Rewrite.inter cs) = Expr.and (cs.map (rewriteExpr w g rel rd.restrs)) from by rw [rewriteExpr]]
+        refine Iff.trans ?_ holds_and_iff.symm
         constructor
         · intro h e he
           obtain ⟨rw1, hrw1, rfl⟩ := List.mem_map.mp he
@@ -575,8 +581,8 @@ theorem leftChan_good (thr : Nat) (typ : String) :
           exact (hgood.defn g hg).mpr (h _ (List.mem_map.mpr ⟨rw1, hrw1, rfl⟩))
       · intro g hg
         rw [hmem g]
-        show _ ↔ HoldsP (sysOf w) I [] (.and (cs.map (rewriteExpr w g rel rd.restrs)))
-        rw [holds_and_iff]
+        rw [show rewriteExpr w g rel rd.restrs (Rewrite.inter cs) = Expr.and (cs.map (rewriteExpr w g rel rd.restrs)) from by rw [rewriteExpr]]
+        refine Iff.trans ?_ holds_and_iff.symm
         constructor
         · intro h e he
           obtain ⟨rw1, hrw1, rfl⟩ := List.mem_map.mp he
@@ -591,21 +597,29 @@ theorem leftChan_good (thr : Nat) (typ : String) :
       obtain ⟨csub, hcsub, hgs⟩ := ih rel rd s hrd hw1.2
       obtain ⟨out, hout, hclean, hsorted, hmem⟩ := fastPathDifference_spec thr cb csub hgb.clean hgs.clean hgb.sorted hgs.sorted
       have hcomb : leftChan w { order := .repaired, thr := thr } typ (fuel + 1) rel (.diff b s) = .chan out false := by
-        have := combine_chans [cb, csub] (fun cs => match cs with
-          | [cb, csub] => fastPathDifference thr 0 1 cb csub
-          | _ => none)
+        have := combine_chans [cb, csub] (diffOp thr)
         simp only [List.map_cons, List.map_nil] at this
-        simp only [leftChan, hcb, hcsub, this, hout]
+        simp only [leftChan, hcb, hcsub, this, diffOp, hout]
       refine ⟨out, hcomb, hclean, hsorted, ?_, ?_, ?_⟩
       · intro x hx; exact hgb.typed x ((hmem x).mp hx).1
       · intro g hg
         rw [hmem g]
-        show _ ↔ HoldsD (sysOf w) I [] (.diff (rewriteExpr w g rel rd.restrs b) (rewriteExpr w g rel rd.restrs s))
-        rw [holds_diff_iff, (hc _).1, ← hgs.poss g hg, ← hgb.defn g hg]
+        rw [show rewriteExpr w g rel rd.restrs (Rewrite.diff b s) = Expr.diff (rewriteExpr w g rel rd.restrs b) (rewriteExpr w g rel rd.restrs s) from by rw [rewriteExpr]]
+        refine Iff.trans ?_ holds_diff_iff.symm
+        constructor
+        · rintro ⟨h1, h2⟩
+          exact ⟨(hgb.defn g hg).mp h1, ((hc _).1).mpr (fun hp => h2 ((hgs.poss g hg).mpr hp))⟩
+        · rintro ⟨h1, h2⟩
+          exact ⟨(hgb.defn g hg).mpr h1, fun hin => ((hc _).1).mp h2 ((hgs.poss g hg).mp hin)⟩
       · intro g hg
         rw [hmem g]
-        show _ ↔ HoldsP (sysOf w) I [] (.diff (rewriteExpr w g rel rd.restrs b) (rewriteExpr w g rel rd.restrs s))
-        rw [holds_diff_iff, (hc _).2, ← hgs.defn g hg, ← hgb.poss g hg]
+        rw [show rewriteExpr w g rel rd.restrs (Rewrite.diff b s) = Expr.diff (rewriteExpr w g rel rd.restrs b) (rewriteExpr w g rel rd.restrs s) from by rw [rewriteExpr]]
+        refine Iff.trans ?_ holds_diff_iff.symm
+        constructor
+        · rintro ⟨h1, h2⟩
+          exact ⟨(hgb.poss g hg).mp h1, ((hc _).2).mpr (fun hp => h2 ((hgs.defn g hg).mpr hp))⟩
+        · rintro ⟨h1, h2⟩
+          exact ⟨(hgb.poss g hg).mpr h1, fun hin => ((hc _).2).mp h2 ((hgs.defn g hg).mp hin)⟩
 
 end main
 
